@@ -26,7 +26,7 @@ package analyzer
 //@   ensures @key-format result == "@" ++ info.Name ++ "." ++ pname
 
 //@ func newGocritic
-//@   prop C19 C14 C04
+//@   prop C19 C14 C04 C06
 //@   assigns any(linter.CheckerParam.Value)
 //@   loop 2 body @int-param-takes-flag-value typeIs(old(info.Params[pname].Value), "int") ==> (typeIs(info.Params[pname].Value, "int") && unbox(info.Params[pname].Value, "int") == deref(intParams["@" ++ info.Name ++ "." ++ pname]))
 //@   loop 2 body @bool-param-takes-flag-value typeIs(old(info.Params[pname].Value), "bool") ==> (typeIs(info.Params[pname].Value, "bool") && unbox(info.Params[pname].Value, "bool") == deref(boolParams["@" ++ info.Name ++ "." ++ pname]))
@@ -35,6 +35,7 @@ package analyzer
 //@   ensures @infos-non-nil result0 != nil ==> (forall m int :: (0 <= m && m < len(result0.infoList)) ==> result0.infoList[m] != nil)
 //@   nosafety the registry invariants (non-nil infos and params, one flag cell per parameter) are established by init and not restated here
 //@   ensures @value-xor-error (result1 == nil) <==> (result0 != nil)
+//@   ensures {C06,C19} @empty-selection-is-an-error result1 == nil ==> len(result0.infoList) != 0
 
 //@ func (*gocritic).createCheckers
 //@   prop C19
